@@ -4,6 +4,8 @@
 # With "verify": also rebuilds, runs the baseline suite and the demonstration with and without the patch.
 WT="$1"; N="$2"; MODE="$3"
 cd "$WT" || exit 2
+# private temp dir: the repo's tests pick /tmp/acb-test-N names that collide between parallel runs
+mkdir -p "$WT/_tmp"; export TMPDIR="$WT/_tmp"
 git checkout -q -- . ; rm -f tests/zz_seed_demo_*.rs
 git apply --check "_seed/$N/patch.diff" || { echo "PATCH DOES NOT APPLY"; exit 2; }
 git apply "_seed/$N/patch.diff"
@@ -29,4 +31,4 @@ if [ "$MODE" = "verify" ]; then
   fi
 fi
 git checkout -q -- . ; rm -f tests/zz_seed_demo_*.rs
-git status --short | grep -v _seed | head -3
+git status --short | grep -v '_seed\|_tmp' | head -3
